@@ -419,10 +419,11 @@ def writeback(ctx, m):
         from analysis.origin import strip
         d = src_defs[0]
         src = strip(q.ev.rvalue(q.body.blocks[d[1]].stmts[d[2]].rv, (d[1], d[2]))) if d[0] == "s" else None
-        a1 = [x for x in walk(src)] if src else []
-        i1 = [x for x in a1 if x[0] == "call" and x[4] == "index"]
-        i2 = [x for x in walk(wb.addr) if x[0] == "call" and x[4] == "index_mut"]
-        ctx.check(bool(i1 and i2 and i1[0][2] == i2[0][2]), "writeback", api + "|slot", wb.loc(), "the copy is stored back into the slot it was read from",
+        # (element access however spelled: orders[i], orders.get(i) matched as Some, orders.index_mut(i), ..)
+        from analysis.typestate import _elem
+        e1 = next((_elem(x) for x in (walk(src) if src else []) if isinstance(x, tuple) and x and x[0] in ("index", "call", "field") and _elem(x) is not None), None)
+        e2 = next((_elem(x) for x in walk(wb.addr) if isinstance(x, tuple) and x and x[0] in ("index", "call", "field") and _elem(x) is not None), None)
+        ctx.check(bool(e1 and e2 and same(strip(e1[0]), strip(e2[0])) and same(strip(e1[1]), strip(e2[1]))), "writeback", api + "|slot", wb.loc(), "the copy is stored back into the slot it was read from",
                   "copy read from %s but stored to %s" % (render(src) if src else "?", render(wb.addr)))
         # every path from a block that modifies the copy to a return passes the write-back
         summ = m.w.effects.summary(f)
